@@ -20,7 +20,7 @@ class Adapter(EnvAdapter):
         from harness.envs.base import T_SWEEP_QUICK_FEW, T_SWEEP_THOROUGH_FEW
 
         ts = T_SWEEP_QUICK_FEW if tier == "quick" else T_SWEEP_THOROUGH_FEW
-        return self._base_configs(tier) + [_c(f"r3c5_t{t}_sweep", 1, t + 2, ["survive"], dict(num_rows=3, num_cols=5, time_limit=t), probe_every=0, props=["C03", "C11"]) for t in ts]
+        return self._base_configs(tier) + [_c(f"r3c5_t{t}_sweep", 1, t + 2, ["survive"], dict(num_rows=3, num_cols=5, time_limit=t), probe_every=0, props=["C01", "C03", "C11", "C12"]) for t in ts]
 
     def _base_configs(self, tier):
         g = lambda r, c, t: dict(num_rows=r, num_cols=c, time_limit=t)  # noqa: E731
